@@ -455,3 +455,57 @@ def c01_diagnose(row, clause, orientation):
         else:
             rel = "consecutive-segments"
     return rel
+
+
+# ----------------------------------------------------------------------------------------------------------
+def seed_rank(ref_pos, qry_pos, true_start, peaks_count=3, resolution=1400, blur=1, min_peak_distance=20000):
+    """Independent re-computation of the seeding step (for classifying a C06 finding, not for the verdict): vectorise both
+    maps at the primary resolution, blur, normalised cross-correlation on both strands, peaks above 0.75 of the maximum,
+    the `peaks_count` highest per strand, then the `peaks_count` best over both strands by (height - noise level).
+    Returns "refined" if a seed within one bin of the true placement is among them, "below-cut" if the true placement has a
+    peak that ranks below them, "tie-at-cut" if it ties with the last one kept, "no-peak" if it has no peak at all."""
+    import numpy as np
+    from scipy.signal import find_peaks
+
+    def vec(pos):
+        n = int(pos[-1] // resolution) + 1
+        v = np.zeros(n, dtype=int)
+        for p in pos:
+            if p >= 0:
+                v[min(n - 1, int(p // resolution))] = 1
+        b = v.copy()
+        for s in range(1, blur + 1):
+            b[s:] |= v[:-s]
+            b[:-s] |= v[s:]
+        return b
+
+    q0 = [p - qry_pos[0] for p in qry_pos]
+    rv, qv = vec(ref_pos), vec(q0)
+    if len(qv) > len(rv):
+        return "no-peak"
+    cands = []
+    true_idx = int(true_start // resolution)
+    true_score = None
+    for strand, q in (("+", qv), ("-", qv[::-1])):
+        corr = np.correlate(rv, q, "valid").astype(float)
+        norm = (np.correlate(rv, np.ones(len(q), dtype=int), "valid") + q.sum()) / 2.0
+        corr = corr / norm
+        nz = corr[corr != 0]
+        noise = float(np.sqrt(np.mean(nz ** 2))) if len(nz) else 0.0
+        idx, props = find_peaks(corr, height=0.75 * corr.max(), width=(None, None), rel_height=0.5,
+                                distance=min_peak_distance / resolution)
+        top = sorted(zip(props["peak_heights"], idx), reverse=True)[:peaks_count]
+        for h, i in top:
+            cands.append((h - noise, int(i), strand))
+        for h, i in zip(props["peak_heights"], idx):
+            if abs(int(i) - true_idx) <= 1:
+                true_score = max(true_score or -1e9, h - noise)
+    cands.sort(reverse=True)
+    kept = cands[:peaks_count]
+    if any(abs(i - true_idx) <= 1 for _, i, _ in kept):
+        return "refined"
+    if true_score is None:
+        return "no-peak"
+    if kept and abs(true_score - kept[-1][0]) <= 1e-9:
+        return "tie-at-cut"
+    return "below-cut"
